@@ -125,6 +125,10 @@ class World:
 EXTRA = np.array([1 + 1j, 2 - 1j, -1 + 0.5j, 0.5j])
 
 
+class WrongDomain(Exception):
+    pass
+
+
 def cplx(c):
     c = complex(c)
     return [c.real, c.imag]
@@ -641,9 +645,10 @@ class C01(C.Check):
                 v = v.real if np.all(v.imag == 0) else v
                 op, m = ift.MatrixProductOperator(doms[key], v), v
             return op.ducktape(key).ducktape_left(key), emb(key, m)
-        if k == "null":            # NullOperator {key} -> {key2}
+        if k == "null":            # NullOperator {keys} -> {keys2}
             _, key, key2 = e
-            return ift.NullOperator(ift.MultiDomain.make({key: doms[key]}), ift.MultiDomain.make({key2: doms[key2]})), np.zeros((5, 5), dtype=complex)
+            return ift.NullOperator(ift.MultiDomain.make({kk: doms[kk] for kk in key}),
+                                    ift.MultiDomain.make({kk: doms[kk] for kk in key2})), np.zeros((5, 5), dtype=complex)
         if k == "fscal":
             c = complex(*e[1]) if e[1][1] else e[1][0]
             return ift.ScalingOperator(D, c), complex(*e[1]) * np.eye(5)
@@ -684,7 +689,7 @@ class C01(C.Check):
             return ops[0].scale(c), (None if Ms is None else complex(*e[1]) * Ms[0])
         raise ValueError(k)
 
-    def multi_gen(self, rng, depth):
+    def multi_gen(self, rng, depth, top=False):
         def vals(n):
             return [cplx(DVALS[int(rng.integers(len(DVALS)))]) for _ in range(n)]
         def atom(key):
@@ -707,6 +712,22 @@ class C01(C.Check):
             order = rng.permutation(len(terms))
             terms = [terms[i] for i in order]
             return ["sum"] + terms + [[int(rng.integers(3) == 0) for _ in terms]]
+        def partial_sum():
+            """a SumOperator between sub-domains in which a NullOperator is the only summand that
+            covers some key of the domain or of the target (at any position of the sum)"""
+            src = ["a", "b", "ab"][int(rng.integers(3))]
+            terms = [atom(k) for k in src if rng.integers(3)] or [atom(src[0])]
+            terms += [atom(src[int(rng.integers(len(src)))]) for _ in range(int(rng.integers(0, 2)))]
+            terms.append(["null", src, "ab"])
+            if rng.integers(2):
+                terms.append(["null", "ab"[int(rng.integers(2))], src[0]])
+            order = rng.permutation(len(terms))
+            terms = [terms[i] for i in order]
+            return ["sum"] + terms + [[int(rng.integers(3) == 0) for _ in terms]]
+        if top and rng.integers(5) == 0:
+            e = partial_sum()
+            r = int(rng.integers(4))
+            return e if r == 0 else ["adj", e] if r == 1 else ["neg", e] if r == 2 else ["scale", cplx(SCALARS[int(rng.integers(len(SCALARS) - 1))]), e]
         if depth == 0:
             return full_sum() if rng.integers(4) else block()
         r = int(rng.integers(7))
@@ -738,7 +759,10 @@ class C01(C.Check):
                 for j in range(doms[key]):
                     x = {kk: np.zeros(doms[kk], dtype=complex) for kk in d.keys()}
                     x[key][j] = 1.
-                    y = op.apply(ift.MultiField.from_dict({kk: ift.Field.from_raw(d[kk], v) for kk, v in x.items()}), mode).asnumpy()
+                    yf = op.apply(ift.MultiField.from_dict({kk: ift.Field.from_raw(d[kk], v) for kk, v in x.items()}), mode)
+                    if yf.domain is not t:
+                        raise WrongDomain("the result lives on %s, the advertised output domain is %s" % (sorted(yf.domain.keys()), sorted(t.keys())))
+                    y = yf.asnumpy()
                     for kk in t.keys():
                         cols[off[kk]:off[kk] + doms[kk], off[key] + j] = y[kk]
             return cols
@@ -747,6 +771,8 @@ class C01(C.Check):
                 return "a sum/chain of operators that all provide mode %d does not advertise it" % mode
             try:
                 got = dense(mode)
+            except WrongDomain as ex:
+                return "MultiDomain expression: mode %d: %s" % (mode, ex)
             except Exception as ex:
                 return "MultiDomain expression: advertised mode %d raises %s: %s" % (mode, type(ex).__name__, str(ex)[:160])
             if R is not None and np.abs(got - R).max() > 1e-9 * (1 + np.abs(R).max()):
@@ -758,7 +784,7 @@ class C01(C.Check):
         n = 0
         todo = [c["expr"] for c in ctx.corpus() if c.get("cfg") == "multi"]
         for i in range(60 if ctx.quick else 600):
-            todo.append(self.multi_gen(rng, int(rng.integers(0, 3))))
+            todo.append(self.multi_gen(rng, int(rng.integers(0, 3)), top=True))
         for e in todo:
             n += 1
             f = self.multi_failure(e)
